@@ -389,6 +389,11 @@ let model_line (f : string list) : string =
   | ["v1fh"; x] -> let x = mbytes x in if utf8_valid x then show_v1s (header_from_str x) else "NOTUTF8"
   | ["v1fa"; x] -> let x = mbytes x in if utf8_valid x then show_v1a (addresses_from_str x) else "NOTUTF8"
   | ["auto"; x] -> show_auto (pa (mbytes x))
+  | ["pipe"; x] ->
+    (* the receive loop over pipelined headers: at most 64 frames *)
+    let (fs, rest) = drain (nat_of_int 64) (mbytes x) in
+    let one = function F1 h -> Printf.sprintf "1:%d" (List.length h.text) | F2 h -> Printf.sprintf "2:%d" (List.length h.hbytes) in
+    Printf.sprintf "P=%s R=%d" (if fs = [] then "-" else String.concat "," (List.map one fs)) (List.length rest)
   | ["views1"; x] ->
     (match p1 (mbytes x) with
      | Ok h -> Printf.sprintf "B[%s] O[%s]" (views1_one h) (views1_one (h1_to_owned h))
